@@ -181,6 +181,38 @@ func init() {
 			}
 		}
 	}
+	// exactly-once transfers at both stages: PUBRELs awaiting PUBCOMP followed by
+	// PUBLISHes awaiting PUBREC (the first generation's broker withholds those)
+	register("damagerel", func() *Scenario {
+		cfg := baseConfig()
+		cfg.ExactlyOnceMax = 6
+		rd := ActorSpec{Name: "reader", Reader: &ReaderSpec{Backoff: true}}
+		var ops []Op
+		for i := 0; i < 4; i++ {
+			ops = append(ops, Op{Kind: "pub2", Topic: fmt.Sprintf("r/%d", i), Msg: []byte(fmt.Sprintf("R%d-rel", i))})
+		}
+		var w0 *World
+		return &Scenario{
+			Config: cfg,
+			Init:   func(w *World) { w0 = w },
+			Actors: []ActorSpec{rd, {Name: "A", Ops: ops}},
+			Gens:   [][]ActorSpec{{rd, {Name: "A", Ops: []Op{{Kind: "pub2", Topic: "r/new", Msg: []byte("Rnew-rel")}}}}},
+			Mute: func(p *Packet) bool {
+				if w0 == nil || w0.gen != 0 {
+					return false
+				}
+				return p.Type == tPUBREL || p.Type == tPUBLISH && (p.Topic == "r/2" || p.Topic == "r/3")
+			},
+			Faults: Faults{Crash: true, Damage: 1, Allow: func(w *World, k string) bool {
+				return k != "crash" || len(w.store.m) >= 5
+			}},
+			Horizon: 1500,
+			Final: func(w *World) {
+				w.monitorWire()
+				w.monitorDamage()
+			},
+		}
+	})
 	register("damagebulk1", mkBulk("pub1"))
 	register("damagebulk2", mkBulk("pub2"))
 }
